@@ -308,12 +308,19 @@ func init() {
 	R("reflect.MakeSlice", func(e *Engine, fr *frame, a []Value) Value {
 		t := a[0].(Iface).V.(RType).T
 		n := a[1].(Term)
-		// allocation accounting hook would go here
-		if !e.branch(And(Sle(BV(64, 0), n), Sle(n, BV(64, 1<<20)))) {
-			e.rpanic("reflect.MakeSlice: len out of range (or huge)")
-		}
-		nn := e.concretize(n, 0, 64)
 		el := t.Underlying().(*types.Slice).Elem()
+		esz := int(sizes.Sizeof(el))
+		if esz < 1 {
+			esz = 1
+		}
+		if !n.IsConst() {
+			if e.branch(Slt(n, BV(64, 0))) {
+				e.rpanic("reflect.MakeSlice: negative len")
+			}
+		} else if n.Int() < 0 {
+			e.rpanic("reflect.MakeSlice: negative len")
+		}
+		nn := e.allocSize(n, esz, "reflect.MakeSlice")
 		s := make([]Value, nn)
 		for i := range s {
 			s[i] = zero(el)
